@@ -523,7 +523,15 @@ pub(crate) async fn run_outstation(script: &Script, obs: &mut Vec<String>) {
                 std::mem::forget(io);
             }
             match err {
-                crate::util::session::RunError::Stop(_) => return,
+                crate::util::session::RunError::Stop(crate::util::session::StopReason::Shutdown) => return,
+                // disabled by the user: like the TCP server task, process messages until enabled again
+                crate::util::session::RunError::Stop(crate::util::session::StopReason::Disable) => {
+                    while task.enabled() != Enabled::Yes {
+                        if task.process_next_message().await.is_err() {
+                            return;
+                        }
+                    }
+                }
                 crate::util::session::RunError::Link(_) => {}
             }
         }
@@ -589,6 +597,16 @@ pub(crate) async fn run_outstation(script: &Script, obs: &mut Vec<String>) {
             }
             "disconnect" => {
                 io.read_error(std::io::ErrorKind::ConnectionReset);
+                settle().await;
+                io = io_rx.recv().await.unwrap();
+            }
+            // the user disables and re-enables the outstation: the session ends without a link error and a new
+            // one starts on a new connection (seeded change C04_c)
+            "bounce" => {
+                handle.disable().await.unwrap();
+                drain_ready().await;
+                handle.enable().await.unwrap();
+                std::mem::forget(io);
                 settle().await;
                 io = io_rx.recv().await.unwrap();
             }
